@@ -261,10 +261,12 @@ def value_of(ab, ty, pyval):
     if ty is None or ty.k == 'none':
         return sx.VNONE
     if ty.k == 'opt':
+        if pyval is None and ty.a[0].k == 'tuple':
+            return V(ty, items=[value_of(ab, t, None) if t.k == 'opt' else V(t, _default(sx.smt_sort(t))) for t in ty.a[0].a], none=z3.BoolVal(True))
         if pyval is None:
             return V(ty, _default(sx.smt_sort(ty.a[0])), none=z3.BoolVal(True))
         inner = value_of(ab, ty.a[0], pyval)
-        return V(ty, inner.t, none=z3.BoolVal(False))
+        return V(ty, inner.t, items=inner.items, none=z3.BoolVal(False))
     if ty.k == 'int':
         return sx.vint(int(pyval))
     if ty.k == 'real':
@@ -339,6 +341,8 @@ def _matches(pyval, ty):
         return not isinstance(pyval, (int, float)) and not any(c.__name__ in DSL_CLASSES for c in type(pyval).__mro__)
     if k == 'htuple':
         return isinstance(pyval, tuple)
+    if k == 'tuple':
+        return isinstance(pyval, tuple) and len(pyval) == len(ty.a) and all(_matches(x, t) for x, t in zip(pyval, ty.a))
     if k in ('arr1', 'arr1i'):
         return hasattr(pyval, 'ndim') and pyval.ndim == 1
     if k == 'arr2':
